@@ -232,3 +232,121 @@ func c02ImmEncodable(c *Ctx, p *Prog, x64 map[string]TemplArm, ins map[string]st
 	}
 	c.Min(rule, "ALU template lines with a literal immediate", n, 8)
 }
+
+// C02 rule x64-rem-s-guard (added after a defect was found on the unchanged tree: idiv raises a divide error for
+// INT_MIN / -1, so `x rem_s -1` with x the minimum killed the native program where WebAssembly defines the result 0).
+// The templates of i32.rem_s and i64.rem_s compare the divisor with -1 and jump round the idiv.
+func c02RemGuard(c *Ctx, p *Prog, x64 map[string]TemplArm) {
+	const rule = "x64-rem-s-guard"
+	n := 0
+	for _, k := range []string{"INS_I32_REM_S", "INS_I64_REM_S"} {
+		a, ok := x64[k]
+		if !ok || len(a.Variants) == 0 {
+			c.Undecided(rule, k, "", "template arm not found")
+			continue
+		}
+		n++
+		cmpAt, jeAt, idivAt := -1, -1, -1
+		divisorReg := ""
+		for i, l := range a.Variants[0].Lines {
+			f := strings.Fields(strings.TrimSpace(strings.ReplaceAll(strings.SplitN(l.Format, "#", 2)[0], ",", " ")))
+			if len(f) == 0 {
+				continue
+			}
+			switch {
+			case f[0] == "cmp" && len(f) == 3 && f[2] == "-1":
+				cmpAt, divisorReg = i, f[1]
+			case f[0] == "je" && cmpAt >= 0 && jeAt < 0:
+				jeAt = i
+			case f[0] == "idiv":
+				idivAt = i
+				if len(f) >= 2 && divisorReg != "" && f[1] != divisorReg {
+					divisorReg = divisorReg + " (but idiv divides by " + strings.Join(f[1:], " ") + ")"
+				}
+			}
+		}
+		good := cmpAt >= 0 && jeAt == cmpAt+1 && idivAt > jeAt && !strings.Contains(divisorReg, "but idiv")
+		c.Check(good, rule, strings.ToLower(strings.TrimPrefix(k, "INS_")), p.Pos(a.Arm.Clause.Pos()), "divisor compared with -1, idiv skipped",
+			"the template divides without testing the divisor for -1 (cmp/je before idiv on the same register: "+divisorReg+"): idiv faults for the minimum divided by -1 and the native program dies with SIGFPE, where the wasm build computes 0")
+	}
+	c.Min(rule, "signed remainder templates", n, 2)
+}
+
+// C02 rules x64-local-init-width and local-index-space (added after two defects were found on the unchanged tree).
+//
+//   x64-local-init-width — every local has an 8-byte slot and WebAssembly guarantees that locals start at zero: the
+//       prologue's loop over the locals clears the whole slot (qword), not only its lower half (an i64/f64 local
+//       would keep stale upper bits).
+//   local-index-space — a local given by number is a parameter (index < #params) or a declared local (index - #params):
+//       the results of the function have no place in that index space. The numeric branch of the findLocal* helpers
+//       of every native translator mentions parameters and locals only.
+func c02Locals(c *Ctx, p *Prog) {
+	const r1, r2 = "x64-local-init-width", "local-index-space"
+	n1, n2 := 0, 0
+	for _, tr := range translators {
+		pk := p.Pkg(tr.pkg)
+		if pk == nil || tr.name == "wat2c" {
+			continue
+		}
+		info := pk.TypesInfo
+		for _, name := range sortedDeclNames(pk) {
+			fd := AllFuncDecls(pk)[name]
+			if fd.Body == nil {
+				continue
+			}
+			// (1) the zeroing loop (x64 only: the other translators' prologues are not in this property's scope)
+			if tr.name == "wat2x64" {
+				ast.Inspect(fd.Body, func(nd ast.Node) bool {
+					rs, ok := nd.(*ast.RangeStmt)
+					if !ok || !strings.HasSuffix(types.ExprString(rs.X), ".Body.Locals") {
+						return true
+					}
+					for _, call := range callsIn(info, rs.Body.List) {
+						if len(call.Args) < 2 {
+							continue
+						}
+						tv, ok := info.Types[call.Args[1]]
+						if !ok || tv.Value == nil {
+							continue
+						}
+						f := tv.Value.ExactString()
+						if !strings.Contains(f, "[rbp%+d], 0") {
+							continue
+						}
+						n1++
+						c.Check(strings.Contains(f, "qword ptr"), r1, name+": zeroing of the locals", p.Pos(call.Pos()), "clears the 8-byte slot",
+							"the prologue clears a local with `"+strings.TrimSpace(strings.Trim(f, `"`))+"`: only the lower half of the 8-byte slot is zeroed, so an i64 or f64 local that is read before it is written still holds what was on the stack (the wasm build reads 0)")
+					}
+					return true
+				})
+			}
+			// (2) numeric local lookup
+			if !strings.Contains(name, "findLocal") {
+				continue
+			}
+			ast.Inspect(fd.Body, func(nd ast.Node) bool {
+				ifs, ok := nd.(*ast.IfStmt)
+				if !ok || ifs.Init == nil || !strings.Contains(types.ExprString(ifs.Cond), "err == nil") {
+					return true
+				}
+				as, ok := ifs.Init.(*ast.AssignStmt)
+				if !ok || len(as.Rhs) != 1 || !strings.Contains(types.ExprString(as.Rhs[0]), "strconv.Atoi") {
+					return true
+				}
+				n2++
+				var bad []string
+				ast.Inspect(ifs.Body, func(m ast.Node) bool {
+					if se, ok := m.(*ast.SelectorExpr); ok && (se.Sel.Name == "Results" || se.Sel.Name == "Return") {
+						bad = append(bad, types.ExprString(se))
+					}
+					return true
+				})
+				c.Check(len(bad) == 0, r2, tr.name+" "+name, p.Pos(ifs.Pos()), "a numeric local is a parameter or a declared local",
+					name+" resolves a numeric local index through "+strings.Join(bad, ", ")+": the results of a function are not part of the local index space (parameters, then locals), so in a function with results every numeric index beyond the parameters names the wrong slot")
+				return false
+			})
+		}
+	}
+	c.Min(r1, "zeroing stores of the x64 prologue", n1, 1)
+	c.Min(r2, "numeric local lookups in the native translators", n2, 5)
+}
